@@ -1,9 +1,9 @@
 //@ tu: libxcm/core/attr_path.c
 //@ enforce: attr_path_len
-//@ pre-unwind: attr_path_len.2:6 strlen.0:17 xv_ap_putzd.0:21 xv_ap_putzd.1:21
-//@ bounded: arbitrary well-shaped path of 0..4 components (key or index below LONG_MAX), keys of 0..15 characters
+//@ pre-unwind: attr_path_len.2:6 strlen.0:9 xv_ap_putzd.0:21 xv_ap_putzd.1:21
+//@ bounded: arbitrary well-shaped path of 0..4 components (key or index below LONG_MAX), keys of 0..7 characters
 //@ props: C19
-//@ expect: postcondition>=1 canary=5
+//@ expect: postcondition>=1 canary=4
 #include "_unit.h"
 void harness(void)
 {
@@ -12,7 +12,6 @@ void harness(void)
     size_t n = attr_path_len(p, root);
     if (n == 0) XV_CANARY("empty path");
     if (n == 4 * 21) XV_CANARY("four 19-digit indices");
-    if (n == 21) XV_CANARY("n21");
-    if (n == 3 && !root) XV_CANARY("n3");
-    if (n == 16) XV_CANARY("n16");
+    if (n == 3 && !root) XV_CANARY("relative path of three characters");
+    if (n == 7 && root) XV_CANARY("root path of seven characters");
 }
